@@ -526,6 +526,100 @@ theorem writer_resume_after_cut {α : Type} (d : Decoder α) (s : Reader.RS) (hc
 
 /-! ### split requests: one lost part never yields a result that looks complete -/
 
+/-! ### what the retry sends, and which waits have a deadline (round 7: seeded C17-m9, C17-m10)
+
+Two facts about the resume paths that the machines of C01/C02 do not carry because they speak about batches and
+records, not about the Go values that carry them:
+
+* a record reader is consumed by the request that sends it, so "the Writer retries the batch" needs the reader to be
+  built again for every attempt (`Gen.ConnLegacy.retryRebuildsRecords`, writer.go writeBatch/produce);
+* "returns by its deadline" needs every read of the fetch — ReadBatchWith, each ReadMessage AND the skip of the rest of
+  the response in Batch.Close — to happen while the read deadline is armed (`Gen.ConnLegacy.readerClosesUnderDeadline`,
+  reader.go (*reader).read). -/
+
+/-- what attempt `n` of a produce puts on the wire when the record reader is rebuilt per attempt / built once -/
+def attemptPayload {α : Type} (rebuilt : Bool) (msgs : List α) : Nat → List α
+  | 0 => msgs
+  | _ + 1 => if rebuilt then msgs else []
+
+theorem retry_carries_the_batch {α : Type} (msgs : List α) (n : Nat) : attemptPayload true msgs n = msgs := by
+  cases n <;> rfl
+
+theorem retry_rebuilds_records_holds : Gen.ConnLegacy.retryRebuildsRecords = true := by decide
+
+/-- the seeded shape: the retry after a lost response goes out empty — "success" without the records -/
+theorem stale_reader_counterexample : attemptPayload false [1, 2, 3] 1 = ([] : List Nat) := rfl
+
+/-- the waits of one fetch of the Reader, in program order -/
+inductive RWait where
+  | arm      -- conn.SetReadDeadline(now + …)
+  | clear    -- conn.SetReadDeadline(time.Time{})
+  | read     -- a read for bytes that never arrive (the connection stays open)
+  deriving DecidableEq, Repr
+
+/-- does the sequence get stuck for ever?  A read with the deadline armed comes back with a timeout and the program
+goes on; a read without one does not come back. -/
+def stuck : Bool → List RWait → Bool
+  | _, [] => false
+  | _, .arm :: r => stuck true r
+  | _, .clear :: r => stuck false r
+  | armed, .read :: r => if armed then stuck armed r else true
+
+/-- (*reader).read: arm, ReadBatchWith, arm, ReadMessage (fails at the deadline), then Close's discard and the clear —
+in the order the regenerated fact says -/
+def readerWaits (closeUnderDeadline : Bool) : List RWait :=
+  [.arm, .read, .arm, .read] ++ (if closeUnderDeadline then [.read, .clear] else [.clear, .read])
+
+/-- no read happens without an armed deadline ⇒ never stuck, whatever arrives or not -/
+theorem armed_reads_return : ∀ (ws : List RWait) (armed : Bool),
+    (∀ pre post, ws = pre ++ .read :: post → (armed = true ∧ .clear ∉ pre) ∨ (∃ p q, pre = p ++ .arm :: q ∧ .clear ∉ q)) →
+    stuck armed ws = false
+  | [], _, _ => rfl
+  | .arm :: r, _, h => by
+    simp only [stuck]
+    refine armed_reads_return r true fun pre post hp => ?_
+    rcases h (.arm :: pre) post (by rw [hp]; rfl) with ⟨_, hc⟩ | ⟨p, q, hpq, hc⟩
+    · exact Or.inl ⟨rfl, fun hm => hc (List.mem_cons_of_mem _ hm)⟩
+    · cases p with
+      | nil => simp only [List.nil_append, List.cons.injEq, true_and] at hpq; exact Or.inl ⟨rfl, hpq ▸ hc⟩
+      | cons x p' =>
+        simp only [List.cons_append, List.cons.injEq] at hpq
+        exact Or.inr ⟨p', q, hpq.2, hc⟩
+  | .clear :: r, _, h => by
+    simp only [stuck]
+    refine armed_reads_return r false fun pre post hp => ?_
+    rcases h (.clear :: pre) post (by rw [hp]; rfl) with ⟨_, hc⟩ | ⟨p, q, hpq, hc⟩
+    · exact absurd (List.mem_cons_self) hc
+    · cases p with
+      | nil => simp at hpq
+      | cons x p' =>
+        simp only [List.cons_append, List.cons.injEq] at hpq
+        exact Or.inr ⟨p', q, hpq.2, hc⟩
+  | .read :: r, armed, h => by
+    have h0 := h [] r rfl
+    have ha : armed = true := by
+      rcases h0 with ⟨ha, _⟩ | ⟨p, q, hpq, _⟩
+      · exact ha
+      · cases p <;> simp at hpq
+    subst ha
+    simp only [stuck, ↓reduceIte]
+    refine armed_reads_return r true fun pre post hp => ?_
+    rcases h (.read :: pre) post (by rw [hp]; rfl) with ⟨_, hc⟩ | ⟨p, q, hpq, hc⟩
+    · exact Or.inl ⟨rfl, fun hm => hc (List.mem_cons_of_mem _ hm)⟩
+    · cases p with
+      | nil => simp at hpq
+      | cons x p' =>
+        simp only [List.cons_append, List.cons.injEq] at hpq
+        exact Or.inr ⟨p', q, hpq.2, hc⟩
+
+theorem reader_closes_under_deadline_holds : Gen.ConnLegacy.readerClosesUnderDeadline = true := by decide
+
+/-- the Reader's fetch as it is returns whatever stops arriving; with the batch closed after the deadline is cleared
+(the seeded shape: a deferred Close) the discard of the response's rest waits for ever -/
+theorem reader_fetch_returns :
+    stuck false (readerWaits Gen.ConnLegacy.readerClosesUnderDeadline) = false ∧ stuck false (readerWaits false) = true := by
+  decide
+
 section SplitMerge
 open KV.SplitMerge
 
